@@ -306,9 +306,14 @@ func (c *Ctx) addDec(tc *TypeCase, data []byte, prior reflect.Value, label strin
 	}
 	fuel := tc.Depth + 3
 	if tc.Rec {
+		// every nesting level consumes at least one byte, and a level of the recursion takes two steps
+		// of the model's unfolding (pointer / slice, then struct): short inputs get what they can need
 		fuel = tc.Depth + len(data) + 2
-		if fuel > 18 {
-			fuel = 18
+		if len(data) <= 8 {
+			fuel = tc.Depth + 2*len(data) + 2
+		}
+		if fuel > 20 {
+			fuel = 20
 		}
 	}
 	term := fmt.Sprintf("KDec %s %s %s %s", tc.head(fuel), coqBytes(data), priorTerm, out)
